@@ -248,6 +248,24 @@ ZipRow(lists, r) == LET idx == SelectSeq([i \in 1..Len(lists) |-> i], LAMBDA i :
                     UObj([j \in 1..Len(idx) |-> DotKey(idx[j] - 1)], [j \in 1..Len(idx) |-> lists[idx[j]].a[r]])
 
 Sig2Str(vs) == vs[1].t = "str" /\ vs[2].t = "str"
+\* RFC 4648 base64, standard alphabet, canonical: padded to a multiple of four, `=` only at the end, unused bits zero
+B64Val(c) == IF c >= 65 /\ c <= 90 THEN c - 65 ELSE IF c >= 97 /\ c <= 122 THEN c - 71 ELSE IF c >= 48 /\ c <= 57 THEN c + 4
+             ELSE IF c = 43 THEN 62 ELSE IF c = 47 THEN 63 ELSE -1
+RECURSIVE B64Groups(_, _, _)
+B64Groups(s, i, acc) ==
+  IF i > Len(s) THEN [ok |-> TRUE, bytes |-> acc]
+  ELSE LET a == B64Val(s[i])  b == B64Val(s[i + 1])
+           last == i + 3 = Len(s)
+           pad2 == last /\ s[i + 2] = 61 /\ s[i + 3] = 61
+           pad1 == last /\ s[i + 2] # 61 /\ s[i + 3] = 61
+           c == IF pad2 THEN 0 ELSE B64Val(s[i + 2])
+           d == IF pad2 \/ pad1 THEN 0 ELSE B64Val(s[i + 3])
+           n == a * 262144 + b * 4096 + c * 64 + d IN
+       IF a < 0 \/ b < 0 \/ c < 0 \/ d < 0 THEN [ok |-> FALSE, bytes |-> <<>>]
+       ELSE IF pad2 THEN (IF b % 16 # 0 THEN [ok |-> FALSE, bytes |-> <<>>] ELSE [ok |-> TRUE, bytes |-> Append(acc, n \div 65536)])
+       ELSE IF pad1 THEN (IF c % 4 # 0 THEN [ok |-> FALSE, bytes |-> <<>>] ELSE [ok |-> TRUE, bytes |-> acc \o <<n \div 65536, (n \div 256) % 256>>])
+       ELSE B64Groups(s, i + 4, acc \o <<n \div 65536, (n \div 256) % 256, n % 256>>)
+B64Decode(s) == IF Len(s) % 4 # 0 THEN [ok |-> FALSE, bytes |-> <<>>] ELSE B64Groups(s, 1, <<>>)
 RX == INSTANCE Regex
 \* the AST of a pattern text, if the context brings one (c.re: a sequence of [p |-> text, ast |-> AST of Regex.tla])
 ReOf(c, pat) == IF "re" \in DOMAIN c /\ \E k \in 1..Len(c.re) : c.re[k].p = pat
@@ -349,7 +367,11 @@ EvalCall(f, args, c) ==
               IF re.r = "unknown" THEN Unspec ELSE IF ~RX!Valid(re) THEN Nothing
               ELSE LET g == RX!GroupText(re, a1.c, CountOf(a3)) IN IF g.some THEN Str(g.text) ELSE Nothing
     [] f = "format_time" -> IF IsU(a1) \/ IsU(a2) THEN Unspec ELSE IF a1.t = "num" /\ a2.t = "str" THEN Unspec ELSE Nothing
-    [] f \in {"base63_decode", "env", "parse_selection"} -> IF IsU(a1) THEN Unspec ELSE IF a1.t = "str" THEN Unspec ELSE Nothing
+    \* "Decode a BASE64 string and try to convert to a string using UTF8; nothing if the argument is not a valid UTF8 string encoded using BASE64"
+    [] f = "base63_decode" -> IF IsU(a1) THEN Unspec ELSE IF a1.t # "str" THEN Nothing
+                              ELSE LET b == B64Decode(a1.c) IN
+                                   IF ~b.ok THEN Nothing ELSE LET u == Utf8Dec(b.bytes) IN IF u.ok THEN Str(u.c) ELSE Nothing
+    [] f \in {"env", "parse_selection"} -> IF IsU(a1) THEN Unspec ELSE IF a1.t = "str" THEN Unspec ELSE Nothing
     \* ---- lists
     [] f = "filter" -> IF IsU(a1) THEN Unspec ELSE IF a1.t # "arr" THEN Nothing
                        ELSE LET rs == MapOver(args[2], c, a1.a, 1) IN
